@@ -17,8 +17,8 @@ CLAIMED = {
  "C11": ("Coq theorems over the pipeline LTS for all scenarios and ALL schedules: C11_finite / C11_no_infinite_run (strictly decreasing measure), C11_no_leak, C11_returned_not_stuck, C11_cancelled_progress under safe_params; C11_returns / C11_main_not_stuck (under live_params every maximal run ends with the call returned; C11_live_needed shows the hypothesis is necessary), C11_cancelled_return_is_error; C11_nothing_remains_at_return / C11_drain_terminates (the moment the repaired call returns is a quiescent state, and it is reached in every run); C11_instances_safe, C11_md_entry_points, C11_root_entry_points: the 24 massive entry points of the CURRENT source (generated inventory) satisfy safe_params and live_params, hence every maximal run of each is finite, returns and leaves no goroutine. Partial: scheduler / channels / races are runtime facts, checked by deadline + goroutine dump + -race build under perturbed schedules", TECH + "; LTS instance generated by a go/ast translator"),
  "C12": ("Coq theorems C12_no_panic_* (Panic unreachable for every byte string, option set and failing reader; output, walk, wasm, mkdir and verify), C12_blank, C12_scan_failure + correspondence: mutation/raw/long-line stream through every entry point incl. massive variants in isolated processes", TECH),
  "C13": ("Coq theorems C13_function_of_tree, C13_repeat, C13_other_trees, C13_markdown_independent over all histories + correspondence: exhaustive short and random long histories, re-run on freshly built copies and concurrently in goroutines", TECH),
- "C14": ("Coq theorems C14_writer, C14_writer_root, C14_short_budget, C14_reader (reader/writer oracles universally quantified), C14_transient(_root) (a writer rejecting only its k-th call), C14_reader_error_partial + correspondence: reader failure at every sampled offset, writer budgets at every sampled byte, all modes, both families, simple and massive", TECH),
- "C15": ("Coq theorem C15_spelling (any two spellings of one forest in the notation family, down to the bytes) and C15_spelling_items (any two documents read as the same items give identical results for all operations) + metamorphic correspondence on pairs of spellings", TECH),
+ "C14": ("Coq theorems C14_writer, C14_writer_root, C14_short_budget, C14_reader (reader/writer oracles universally quantified), C14_transient(_root) (a writer rejecting only its k-th call), C14_massive_nil_means_no_fault / C14_massive_error_is_a_fault (massive mode, every schedule of the LTS), C14_reader_error_partial + correspondence: reader failure at every sampled offset, writer budgets at every sampled byte, all modes, both families, simple and massive", TECH),
+ "C15": ("Coq theorem C15_spelling (any two spellings of one forest in the notation family, down to the bytes), C15_massive_roots (with the massive option: same roots for any two heading-free spellings under any interleavings) and C15_spelling_items (any two documents read as the same items give identical results for all operations) + metamorphic correspondence on pairs of spellings", TECH),
  "C16": ("Coq theorems C16_exit (status 0 iff usage valid, input opened, library nil), C16_stdout, C16_effect, C16_codes over a model of the action functions, C16_template (template | output = documented sample, by computation). The proofs are thin case analyses; the weight is the correspondence: the binary built from /repo/cmd/gtree vs the library and vs the model on flag combinations, stray/empty/unknown arguments, missing files and stdout states pipe / closed / /dev/full", TECH),
  "C17": ("Coq theorems C17_equiv (every byte string, every claimed option set, both routes), C17_routes_agree + correspondence: one driver compiled with and without -tags tinywasm on well-formed and malformed inputs", TECH),
 }
